@@ -491,19 +491,19 @@ func (w *vCliLog) count(sub string) int {
 }
 
 type vCliRig struct {
-	ln       *vCliListener
-	lgoid    int64
-	ldone    int32
-	shutdown chan struct{}
-	shut     bool
-	wg       sync.WaitGroup
+	ln         *vCliListener
+	lgoid      int64
+	ldone      int32
+	shutdown   chan struct{}
+	shut       bool
+	wg         sync.WaitGroup
 	lastParked int64 // a probe goroutine seen parked in wg.Wait() by the latest picture
-	conns    []*vCliConn
-	known    map[int64]bool
-	hook0    int
-	stack    []byte
-	logbuf   *vCliLog
-	events   []map[string]interface{}
+	conns      []*vCliConn
+	known      map[int64]bool
+	hook0      int
+	stack      []byte
+	logbuf     *vCliLog
+	events     []map[string]interface{}
 }
 
 func vCliNewRig() (*vCliRig, error) {
@@ -728,6 +728,9 @@ func (r *vCliRig) settled(p vCliPic) bool {
 		}
 		if p.h[i] == "select" && reply == "none" {
 			return false // the Grant is on its way
+		}
+		if c.sock.half && p.u[i] == "read" {
+			return false // our FIN is on its way to the copier that reads the SOCKS conn
 		}
 	}
 	return true
